@@ -36,3 +36,9 @@ func init() {
 	prop("C05", "C16-R1", "C04-R1", "C04-R2")
 	prop("C15", "C15-R1", "C15-R2", "C15-R3")
 }
+
+func init() {
+	prop("C01", "C01-R7")
+	prop("C13", "C13-R1", "C13-R2", "C13-R3", "C01-R7")
+	prop("C08", "C08-R1", "C01-R1", "C01-R3", "C01-R4")
+}
